@@ -337,17 +337,9 @@ def _decode(repo, rep):
     # otherwise 'X22' is matched as an entity body and int('X22') fails
     marker = None
     if hasattr(er, "pattern"):
-        for op, av in rx.parse(er.pattern, er.flags):
-            if op is rx.C.SUBPATTERN and av[0] == 2:
-                cs = rx.CharSet()
-                for o2, a2 in av[3]:
-                    if o2 in (rx.C.MAX_REPEAT, rx.C.MIN_REPEAT):
-                        for o3, a3 in a2[2]:
-                            if o3 is rx.C.LITERAL:
-                                cs = cs | rx.CharSet([(a3, a3)])
-                            elif o3 is rx.C.IN:
-                                cs = cs | rx.in_set(a3)
-                marker = cs
+        loc = rx.locate_group(rx.parse(er.pattern, er.flags), 2)
+        if loc is not None:
+            marker = rx.all_chars(loc[0])
     icase = bool(getattr(er, "flags", 0) & 2)
     rep.check(marker is not None and (icase or (
         "x" in marker and "X" in marker)), "R06.3",
@@ -355,6 +347,22 @@ def _decode(repo, rep):
         "character reference is accepted in either case (&#x22; and &#X22;)",
         construct="hex-marker-case", detail=str(marker))
     sub = repo.func("chameleon.utils.substitute_entity")
+    # a NAME may begin with x or X (&xi; &Xi;): the marker may only be split
+    # off after '#', or the name looked up must put it back
+    hashed = hasattr(er, "pattern") and rx.implied_before(
+        rx.parse(er.pattern, er.flags), 2, "#")
+    rejoined = False
+    for n in ast.walk(sub.node):
+        if isinstance(n, ast.Call) and isinstance(n.func, ast.Attribute) \
+                and n.func.attr == "get" and n.args:
+            key = src(L.inline_locals(sub.node, n.args[0]))
+            if "group(2)" in key and "group(3)" in key:
+                rejoined = True
+    rep.check(hashed or rejoined, "R06.3", "chameleon.utils.entity_re",
+              "the hexadecimal marker is recognised only after '#': in a "
+              "named entity a leading x or X belongs to the name (&xi; &Xi; "
+              "are decoded like &mu;)", construct="hex-marker-needs-hash",
+              detail=getattr(er, "pattern", ""))
     hexb = [n for n in ast.walk(sub.node) if isinstance(n, ast.Compare)
             and "group(2)" in src(n.left) and any(
                 isinstance(c, ast.Constant) and c.value in ("x", "X")
